@@ -137,7 +137,7 @@ def parse_dot(text, flat_sets=True):
     for line in text.splitlines():
         m = re.match(r'(-?\d+) -> (-?\d+) \[label="((?:[^"\\]|\\.)*)",', line)
         if m:
-            edges.append((m.group(1), m.group(2), m.group(3)))
+            edges.append((m.group(1), m.group(2), re.sub(r'\\(.)', lambda q: q.group(1), m.group(3))))
             continue
         m = re.match(r'(-?\d+) \[label="((?:[^"\\]|\\.)*)"(,style = filled)?[,\]]', line)
         if m:
